@@ -136,7 +136,10 @@ fn node_json<'i, R: RuleType, T: Pairs<'i, R> + Debug + Hash>(node: &T, job: &Jo
     }
     let dbg = format!("{:?}", node);
     m.insert("dbgh".into(), json!(strhash(&dbg)));
-    m.insert("hash".into(), json!(hash_of(node)));
+    if job.has('H') {
+        // Span hashes the address of the input: only comparable inside one process
+        m.insert("hash".into(), json!(hash_of(node)));
+    }
     if job.has('G') {
         m.insert("dbg".into(), json!(dbg));
     }
@@ -178,7 +181,17 @@ where
                 }
                 Value::Object(m)
             }
-            Err(e) => json!({"ok": false, "err": err_json(&e, job)}),
+            Err(e) => {
+                let mut v = err_json(&e, job);
+                if let Err(e2) = T::try_parse_partial(mk()) {
+                    let a = catch_unwind(AssertUnwindSafe(|| format!("{}", e))).unwrap_or_default();
+                    let b = catch_unwind(AssertUnwindSafe(|| format!("{}", e2))).unwrap_or_default();
+                    v["nondet"] = json!(a != b);
+                } else {
+                    v["nondet"] = json!(true);
+                }
+                json!({"ok": false, "err": v})
+            }
         }),
     );
     out.insert(
